@@ -938,10 +938,11 @@ Definition api_expand (root : node) (anchor : path) (a : attr) (lo hi : Z) (dlo 
   let neg (x : option Z) := match x with Some d => d <? 0 | None => false end in
   if neg dlo || neg dhi then Err ValueError else block_expand root anchor a lo hi dlo dhi.
 
-(* ListCursorPrototype.__getitem__(slice): lift_cursor asserts a non-empty block *)
+(* ListCursorPrototype.__getitem__(slice): lift_cursor raises InvalidCursorError on an empty block
+   (`if len(impl) == 0: raise InvalidCursorError("block no longer exists")`) *)
 Definition api_slice (anchor : path) (a : attr) (lo hi : Z) (start stop : option Z) : res cursor :=
   match block_slice anchor a lo hi start stop with
-  | CBlock an a' l h => if 0 <? range_len l h then Ok (CBlock an a' l h) else Err AssertionError
+  | CBlock an a' l h => if 0 <? range_len l h then Ok (CBlock an a' l h) else Err InvalidCursorError
   | c => Ok c
   end.
 
